@@ -14,11 +14,17 @@ VARIABLE l
 
 Bad(e) ==
   \* whole_font copies tables verbatim: only structural validity is promised for it
+  \* and, when the harness prescribed what the source consists of (a collection member), that these ARE its tables
   CASE e.ev = "Written" -> Violated(e.o.sfnt) \cup (IF e.a.op \in {"subset", "instance"}
-                                                    THEN CrossViolated(e.o.cross) ELSE {})
+                                                    THEN CrossViolated(e.o.cross)
+                                                    ELSE IF MemberOK(e.o.cross) THEN {} ELSE {"MemberOK"})
     [] e.ev = "Tables"  -> CrossViolated(e.o.cross)
     [] e.ev = "Unreadable" -> {"Unreadable"}
+    \* a table provider was handed out for a member index the collection does not have
+    [] e.ev = "NoSuchMember" -> {"MemberOK"}
     [] OTHER -> {}
+
+NoCross(e) == e.ev \in {"Unreadable", "NoSuchMember"}
 
 TInit == l = 1
 TNext ==
@@ -28,10 +34,12 @@ TNext ==
      IF Bad(e) = {} THEN TRUE
      ELSE PrintT(<<"MISMATCH", ToJson([i |-> e.i, case |-> e.case, op |-> e.a.op,
                                        violated |-> SetToSortSeq(Bad(e), LAMBDA a, b : TRUE),
-                                       derived |-> IF e.ev = "Unreadable" THEN <<>>
+                                       derived |-> IF NoCross(e) THEN <<>>
                                                    ELSE SetToSortSeq(DerivedBadNames(e.o.cross), LAMBDA a, b : TRUE),
-                                       cffidx |-> IF e.ev = "Unreadable" THEN <<>>
-                                                  ELSE SetToSortSeq(CffBadIndexes(e.o.cross), LAMBDA a, b : TRUE)])>>)
+                                       cffidx |-> IF NoCross(e) THEN <<>>
+                                                  ELSE SetToSortSeq(CffBadIndexes(e.o.cross), LAMBDA a, b : TRUE),
+                                       member |-> IF NoCross(e) THEN <<>>
+                                                  ELSE SetToSortSeq(MemberBadNames(e.o.cross), LAMBDA a, b : TRUE)])>>)
 TSpec == TInit /\ [][TNext]_l
 AllConsumed == TLCGet("stats").diameter = Len(Rec) + 1
 =============================================================================
